@@ -9,13 +9,20 @@ request `req` for call `id`):
   * call `id` was created with exactly `req` and has not been dispatched or dropped before
                                                         — the request reaches the backend unchanged, once,
   * round robin: after this pick the per-backend counts differ by at most one,
-  * consistent hash: every earlier pick of an equal request went to the same backend;
+  * consistent hash: every earlier pick of an equal request went to the same backend — whatever any backend
+    answered in between (`resultSet b k` switches mock backend `b` to result code `k`);
+at every `answered id k` that the caller got exactly the answer the picked backend gives (`k` is the code
+the last `resultSet` for that backend announced, 0 = `Ok` if none);
 and a `panicked` first poll is accepted only for `n = 0` (outside the property).
 
-`monRt` (family `c20retry`) checks each `start q … ret r` episode: the backend is always given `q`; the
-policy is consulted after every backend answer with attempt numbers 1, 2, 3, …; after a `retry = true`
-answer the backend is called again, after the first `retry = false` answer the call returns exactly the
-result the policy has just seen; the stream ends between episodes.
+`monRt` (family `c20retry`, run by the C20 and the C07 check) checks each `start q ctx … ret r` episode: the
+backend is always given `q`; its calls are numbered 1, 2, 3, … and every one carries the caller's trace
+context (C20) and the caller's deadline — the very same instant, however much time the earlier attempts took
+(C07: a retried nested call never outlives the caller's deadline); the policy is consulted after every backend
+answer (`Ok`, `Shutdown`, `DeadlineExceeded`, `Server`, `Send`) with attempt numbers 1, 2, 3, …; after a
+`retry = true` answer the backend is called again, after the first `retry = false` answer the call returns
+exactly the result the policy has just seen; the stream ends between episodes.  Failures are tagged with the
+property they belong to (`[C20] …`, `[C07] …`).
 -/
 namespace TarpcModel.Stubs
 
@@ -24,6 +31,8 @@ namespace TarpcModel.Stubs
 structure LbMon where
   created : List (Nat × Nat) := []    -- (call id, request) of futures not yet polled
   picks   : List (Nat × Nat) := []    -- (request, backend), most recent first
+  results : List (Nat × Nat) := []    -- (backend, result code it currently answers with)
+  last    : Option (Nat × Nat) := none  -- (call id, backend) of a pick whose answer has not been seen yet
   ok      : Bool := true
   why     : String := ""
 deriving Repr
@@ -52,7 +61,7 @@ def monLbStep (kind : Kind) (n : Nat) (m : LbMon) : LbObs → LbMon
       let valid := decide (b < n)
       let known := lookup id m.created == some req
       let kok := kindOk kind n req b m.picks
-      let m' := { m with created := erase id m.created, picks := (req, b) :: m.picks }
+      let m' := { m with created := erase id m.created, picks := (req, b) :: m.picks, last := some (id, b) }
       m'.flag (valid && known && kok)
         (if !valid then s!"call {id}: backend {b} is not below n={n}"
          else if !known then s!"call {id}: backend {b} got request {req}, which is not what the call was created with"
@@ -62,6 +71,16 @@ def monLbStep (kind : Kind) (n : Nat) (m : LbMon) : LbObs → LbMon
   | .panicked id =>
       let m' := { m with created := erase id m.created }
       m'.flag (n == 0) s!"call {id}: first poll panicked although n={n} > 0"
+  | .resultSet b k =>
+      let m' := { m with results := (b, k) :: erase b m.results }
+      m'.flag (decide (b < n)) s!"result set for backend {b}, which is not below n={n}"
+  | .answered id k =>
+      let m' := { m with last := none }
+      match m.last with
+      | some (id', b) =>
+          m'.flag (id' == id && k == resultOf b m.results)
+            s!"call {id}: the caller got result code {k}, backend {b} (picked for call {id'}) answers {resultOf b m.results}"
+      | none => m'.flag false s!"call {id}: an answer without a dispatch"
   | .noop => m
 
 def monLb (kind : Kind) (n : Nat) (obs : List LbObs) : LbMon := obs.foldl (monLbStep kind n) {}
@@ -70,45 +89,82 @@ def monLb (kind : Kind) (n : Nat) (obs : List LbObs) : LbMon := obs.foldl (monLb
 
 inductive RtPhase where
   | idle
-  | wantBackend (req i : Nat)     -- next: the backend is called with `req` (attempt `i`)
-  | wantPolicy (req i : Nat)      -- next: the policy is asked about attempt `i` (or the backend never answers)
-  | wantRet (r : Res)             -- next: the call returns `r`
+  | wantBackend (req i : Nat) (ctx : RtCtx)   -- next: the backend is called with `req` (attempt `i`)
+  | wantAttempt (req i : Nat) (ctx : RtCtx)   -- next: the context of that call
+  | wantPolicy (req i : Nat) (ctx : RtCtx)    -- next: the policy is asked about attempt `i` (or the backend never answers)
+  | wantRet (r : Res)                         -- next: the call returns `r`
+  | dead                                      -- the episode structure was violated: nothing more is checked
 deriving Repr, DecidableEq
 
 structure RtMon where
   phase : RtPhase := .idle
   ok    : Bool := true
-  why   : String := ""
+  why20 : String := ""      -- first C20 failure
+  why07 : String := ""      -- first C07 failure
 deriving Repr
 
+/-- A C20 failure that leaves the episode structure intact. -/
+def RtMon.fail20 (m : RtMon) (msg : String) : RtMon :=
+  { m with ok := false, why20 := if m.why20 = "" then msg else m.why20 }
+
+/-- A C20 failure after which the observation stream can no longer be followed. -/
 def RtMon.fail (m : RtMon) (msg : String) : RtMon :=
-  { m with ok := false, why := if m.ok then msg else m.why }
+  { m.fail20 msg with phase := .dead }
+
+def RtMon.fail07 (m : RtMon) (msg : String) : RtMon :=
+  { m with ok := false, why07 := if m.why07 = "" then msg else m.why07 }
 
 def showRes : Res → String
   | .ok v => s!"ok {v}"
   | .err k => s!"err {k}"
+  | .send k => s!"send {k}"
+
+def showTrace (c : RtCtx) : String := s!"{c.traceId}:{c.spanId}:{if c.sampled then "S" else "U"}"
+
+/-- The context checks at backend call `i` (issued at `now`): same trace context (C20), same deadline (C07). -/
+def RtMon.checkCtx (m : RtMon) (i now : Nat) (caller got : RtCtx) : RtMon :=
+  let m := if got.traceId = caller.traceId ∧ got.spanId = caller.spanId ∧ got.sampled = caller.sampled then m
+    else m.fail20 s!"attempt {i}: backend was given trace context {showTrace got}, the caller's is {showTrace caller}"
+  if got.deadline = caller.deadline then m
+  else m.fail07 (s!"attempt {i} of a retried call (issued at {now} ns) carries deadline {got.deadline} ns, the caller's " ++
+    s!"deadline is {caller.deadline} ns" ++
+    (if caller.deadline < got.deadline then s!": the retry may outlive the caller by {got.deadline - caller.deadline} ns" else ""))
 
 def monRtStep (m : RtMon) (o : RtObs) : RtMon :=
   match m.phase, o with
-  | .idle, .start q => { m with phase := .wantBackend q 1 }
-  | .wantBackend q i, .backend q' =>
-      if q' = q then { m with phase := .wantPolicy q i }
+  | .dead, _ => m
+  | .idle, .start q _ ctx => { m with phase := .wantBackend q 1 ctx }
+  | .wantBackend q i ctx, .backend q' =>
+      if q' = q then { m with phase := .wantAttempt q i ctx }
       else m.fail s!"attempt {i}: backend was given request {q'}, the caller's request is {q}"
-  | .wantPolicy q i, .policy i' r d =>
-      if i' = i then { m with phase := if d then .wantBackend q (i + 1) else .wantRet r }
+  | .wantAttempt q i ctx, .attempt i' now ctx' =>
+      if i' = i then ({ m with phase := .wantPolicy q i ctx }).checkCtx i now ctx ctx'
+      else m.fail s!"backend call number {i'} where attempt {i} was due"
+  | .wantPolicy q i ctx, .policy i' r d =>
+      if i' = i then { m with phase := if d then .wantBackend q (i + 1) ctx else .wantRet r }
       else m.fail s!"policy was passed attempt number {i'}, expected {i}"
-  | .wantPolicy _ _, .stuck => { m with phase := .idle }
+  | .wantPolicy _ _ _, .stuck => { m with phase := .idle }
   | .wantRet r, .ret r' =>
       if r' = r then { m with phase := .idle }
       else m.fail s!"returned {showRes r'} but the last backend result (declined by the policy) was {showRes r}"
   | .idle, _ => m.fail "event outside a call"
-  | .wantBackend _ i, _ => m.fail s!"expected backend call for attempt {i}"
-  | .wantPolicy _ i, _ => m.fail s!"expected the policy to be consulted about attempt {i}"
+  | .wantBackend _ i _, _ => m.fail s!"expected backend call for attempt {i}"
+  | .wantAttempt _ i _, _ => m.fail s!"expected the context of backend call {i}"
+  | .wantPolicy _ i _, _ => m.fail s!"expected the policy to be consulted about attempt {i}"
   | .wantRet r, _ => m.fail s!"policy declined; expected the call to return {showRes r}"
 
 def monRt (obs : List RtObs) : RtMon := obs.foldl monRtStep {}
 
 /-- Final verdict: no step failed and no call is left half-way. -/
 def RtMon.accepts (m : RtMon) : Bool := m.ok && decide (m.phase = .idle)
+
+/-- The verdict text: one part per property concerned, `[C20] … ;; [C07] …`. -/
+def RtMon.verdict (m : RtMon) : Option String :=
+  if m.accepts then none
+  else
+    let p20 := if m.why20 ≠ "" then ["[C20] " ++ m.why20]
+               else if m.ok then ["[C20] trace ends in the middle of a call"] else []
+    let p07 := if m.why07 ≠ "" then ["[C07] " ++ m.why07] else []
+    some (" ;; ".intercalate (p20 ++ p07))
 
 end TarpcModel.Stubs
